@@ -11,6 +11,7 @@ import (
 	"io/fs"
 	"log/slog"
 	"math"
+	mbits "math/bits"
 	"net/http"
 	"path"
 	"regexp"
@@ -229,7 +230,8 @@ func findRefSegMetaFromTime(a *asset, rep *RepData, time uint64, cfg *ResponseCo
 	refRep := a.refRep
 	refTotDur := uint64(refRep.duration())
 	nrSegs := uint64(len(refRep.Segments))
-	refTime := time * uint64(refRep.MediaTimescale) / uint64(rep.MediaTimescale)
+	hi, lo := mbits.Mul64(time, uint64(refRep.MediaTimescale)) // the product may need more than 64 bits
+	refTime, _ := mbits.Div64(hi, lo, uint64(rep.MediaTimescale))
 	nrWraps := refTime / refTotDur
 	wrapTime := nrWraps * refTotDur
 	wrapNr := nrWraps * nrSegs
